@@ -695,7 +695,7 @@ func TestVerifC42(t *testing.T) {
 	e := &env{rep: rep, th: th}
 	e.open()
 	defer func() { e.db.Close() }()
-	n := vk.N(2000, 100000)
+	n := vk.N(8000, 200000)
 	for i := 0; i < n; i++ {
 		if i%16 == 0 {
 			rep.Case("case %d", i)
